@@ -16,6 +16,15 @@ for cfg in rel relcheck stdmin nostd nostdcheck; do
     [ $_rc -lt 1 ] && grep -q "could not compile .num-bigint" "$ROOT/target/build-$cfg.log" || { [ $_rc -lt 2 ] && _rc=2; }
   fi
 done
+# the complete C06 (text / radix conversion) space in the no_std build: the feature-conditional buffer
+# estimates live in exactly that code, so every value/radix/input string of C06 is re-checked there
+if build nostd c06; then
+  NBMC_AS=C16 NBMC_NO_PYREF=1 NBMC_PART=c06-nostd NBMC_CONFIG=nostd "$(bindir nostd)/c06" "$tier" | grep -v "^C16\[" ; _r=${PIPESTATUS[0]}
+  [ $_r -gt $_rc ] && _rc=$_r
+  _parts="$_parts c06-nostd"
+else
+  [ $_rc -lt 2 ] && _rc=2
+fi
 # byte-equality of the transcripts (first differing line is the replay)
 _ref=""
 _cmp_ok=true
